@@ -23,6 +23,6 @@ def run(ck):
                "shape list (class, points, flags, line width, dash, colours) must equal the model's; non-trivial = paints at least "
                "one shape; distinct by content-stream bytes")
     ck.assumptions = ["LTRect points are compared as the corner set; a redundant closing `l` before `h` is dropped on both sides",
-                      "a subpath consisting of a lone `m` is outside the property (no segment) and ignored on both sides",
+                      "a subpath consisting of a lone `m` has no segment and yields no shape (the code's one-point curve for a path that is a single `m` is the known finding dev:LoneMoveShape)",
                       "a colour that was never set is reported as None"]
     ck.exhaustive = True
